@@ -47,6 +47,15 @@ def plan(seed, subbatch):
         tfs = [None, None] + ([tf, tf] if tf else [])
         members = sample_members(cfg, cfg.randint(1, 3), tfs, max_period=8, classes=pool)
         hexcfg = {"candlestick_type": "HA"} if cfg.random() < 0.2 else {}
+        if sub_rng(seed, "shared-args").random() < 0.06:
+            from .c13 import adversarial_pair
+
+            pr = sub_rng(seed, "shared-args-pair")
+            for _try in range(40):
+                a_, b_, rel = adversarial_pair(pr, None)
+                if rel == "shared_args":
+                    members = [a_, b_]
+                    break
         lv = sub_rng(seed, "level")
         if lv.random() < 0.25:
             # a Hexital-level timeframe below the members' (members without one inherit it)
